@@ -179,7 +179,9 @@ def present(fmt, vals, names):
         return np.array(vals, dtype=dts[int(sha([list(vals), "narrow"]), 16) % len(dts)]), None
     if fmt == "array_valueof":
         # names+valueof with the names (integers unrelated to the values) in a numpy array
-        d = {int(nm): v for nm, v in zip(names, vals)}
+        # ... and the VALUES as 64-bit numpy scalars (since fix F13 an array of items reaches the algorithms as plain Python numbers; a value
+        # function backed by a numpy array is the remaining way for numpy scalars to get there)
+        d = {int(nm): (np.int64(v) if isinstance(v, int) and 0 <= v < 2 ** 62 else v) for nm, v in zip(names, vals)}
         return np.array(names, dtype=np.int64), (lambda x, d=d: d[int(x)])
     if fmt in ("dict_str", "dict_int"):
         return {nm: v for nm, v in zip(names, vals)}, None
